@@ -3,7 +3,7 @@
    gen_routes / gen_qv are regenerated from pynmon's source on every run. *)
 From Coq Require Import String List Bool Arith ZArith Permutation.
 Import ListNotations.
-From PV Require Import Model.Monitor gen.Routes_gen Proofs.MonitorProofs.
+From PV Require Import Model.Monitor gen.Routes_gen gen.ReadImpl_gen Proofs.MonitorProofs.
 
 (* Every API method the model classifies read-only is a function sys -> out: the whole system
    (queue order, status records, stored records, results, exceptions, histories, runner records,
@@ -104,12 +104,36 @@ Theorem queue_view_keeps_ids_partial : forall inside g rr fin s limit, rr <> RNo
 Proof. exact drain_permutes_when_present. Qed.
 Print Assumptions queue_view_keeps_ids_partial.
 
+(* The implementations behind the read-only classification (gen/ReadImpl_gen.v, regenerated on every run from
+   pynenc/{broker,orchestrator,state_backend,trigger}/{base,mem,sqlite}_*.py): every method the model classifies
+   read-only is implemented - in the in-memory and in the SQLite backend, followed through self-calls, helper objects
+   and module helpers - by code whose only effects are calls of read-only methods: no store / del / in-place operator
+   / mutating method on a stored container (not even through a local alias of it), no SQL write, no housekeeping
+   sweep piggy-backed on a listing. *)
+Theorem read_methods_implemented_without_writes : impls_ok gen_read_impl = true.
+Proof. exact gen_read_impl_ok. Qed.
+Print Assumptions read_methods_implemented_without_writes.
+
+(* ... and the table is not vacuous for the monitor: every backend-implemented read method some GET route can
+   reach has an analysed implementation for both backends. *)
+Theorem get_routes_reach_analysed_implementations : impl_coverage gen_routes gen_read_impl = true.
+Proof. exact gen_impl_coverage. Qed.
+Print Assumptions get_routes_reach_analysed_implementations.
+
+Theorem get_routes_reach_observing_code : forall r a i e,
+  In r gen_routes -> r_qv r = false -> In a (r_reach r) -> In i gen_read_impl -> i_api i = a ->
+  In e (i_effects i) -> exists b, e = ECall b /\ read_only b = true.
+Proof. exact gen_get_routes_reach_observing_code. Qed.
+Print Assumptions get_routes_reach_observing_code.
+
 (* non-vacuity: the table is not empty, and a handler that counts, looks up a purged record and
    fails on it leaves a non-trivial system untouched *)
 Example c20_nonvacuous :
-  gen_routes <> [] /\
+  gen_routes <> [] /\ gen_read_impl <> [] /\
+  impl_ok (mkImpl AOrchCount 0 "narrowing the live index in place" [EWriteContainer]) = false /\
+  impl_ok (mkImpl AOrchIdsPaginated 1 "sweeping before listing" [ECall AOrchPurge; EWriteSql]) = false /\
   let s := mkSys [4; 5] [(4, (0, None))] [4] [(4, 1)] [] [(4, [0])] [(1, 9)] [1] [] [(1, 1)] [] in
   run (PCall (mkCall ABrokerCount 0 [])
         (fun _ => PCall (mkCall ASbInvocation 5 [])
            (fun o => match o with ORaise => PFail | _ => PRet end))) s = (s, false).
-Proof. split; [discriminate | vm_compute; reflexivity]. Qed.
+Proof. repeat split; try discriminate; vm_compute; reflexivity. Qed.
